@@ -97,6 +97,7 @@ impl MemTable {
 		let cmp: Compare = |a, b| a.cmp(b);
 		let skiplist = Skiplist::new(arena, cmp);
 		let empty_size = skiplist.size() as u64;
+		debug_assert_eq!(empty_size, skiplist::EMPTY_ARENA_SIZE as u64);
 		MemTable {
 			skiplist,
 			latest_seq_num: AtomicU64::new(0),
@@ -178,6 +179,27 @@ impl MemTable {
 		self.is_empty() && self.skiplist.size() as u64 > self.empty_size
 	}
 
+	/// Arena bytes the batch takes when its nodes get these heights, plus the
+	/// room the arena wants behind a node for the unused part of its tower.
+	fn arena_need(batch: &Batch, heights: &[u32]) -> u64 {
+		batch
+			.entries
+			.iter()
+			.zip(heights)
+			.map(|(e, h)| {
+				skiplist::node_arena_bytes(*h, e.key.len(), e.value.as_ref().map_or(0, |v| v.len()))
+			})
+			.sum::<u64>() + skiplist::MAX_NODE_SIZE as u64
+	}
+
+	/// Whether the batch can be applied to an empty memtable of this capacity
+	/// at all (with the smallest nodes there are).
+	pub(crate) fn can_ever_hold(batch: &Batch, arena_capacity: usize) -> bool {
+		let heights = vec![1u32; batch.entries.len()];
+		skiplist::EMPTY_ARENA_SIZE as u64 + Self::arena_need(batch, &heights)
+			<= arena_capacity.min(arena::MAX_ARENA_SIZE) as u64
+	}
+
 	/// Adds a batch of operations to the memtable.
 	/// This includes appending the batch to the Write-Ahead Log (WAL),
 	/// applying the batch to the in-memory table, and updating the memtable
@@ -189,38 +211,39 @@ impl MemTable {
 	///   numbers)
 	pub(crate) fn add(&self, batch: &Batch) -> Result<()> {
 		// A batch goes in entirely or not at all: running out of arena half-way
-		// would leave a part of the transaction in this memtable, and that part
-		// would later be flushed to a table on its own. So before touching the
-		// skip list, make sure the arena can take the whole batch even if every
-		// node gets a full-height tower, counting what concurrent adders may
-		// still take. (A batch alone in an empty memtable is let through: it
-		// cannot fit anywhere better.)
-		let needed: u64 = batch
-			.entries
-			.iter()
-			.map(|e| {
-				(skiplist::MAX_NODE_SIZE + 8 + e.key.len() + e.value.as_ref().map_or(0, |v| v.len()))
-					as u64
-			})
-			.sum();
+		// would leave a part of the transaction in this memtable, visible to
+		// readers and later flushed to a table on its own. So the node heights
+		// are drawn first, which tells exactly how much arena the batch takes,
+		// and the skip list is only touched once that much is free, counting
+		// what concurrent adders may still take.
+		let mut heights: Vec<u32> = batch.entries.iter().map(|_| skiplist::random_height()).collect();
+		let mut needed = Self::arena_need(batch, &heights);
+		if self.skiplist.size() as u64 <= self.empty_size
+			&& self.empty_size + needed > self.capacity
+		{
+			// Alone it cannot fit anywhere better than in an empty memtable:
+			// give it the smallest nodes there are.
+			heights.iter_mut().for_each(|h| *h = 1);
+			needed = Self::arena_need(batch, &heights);
+		}
 		loop {
 			let pending = self.pending_bytes.fetch_add(needed, Ordering::AcqRel) + needed;
 			let used = self.skiplist.size() as u64;
-			let alone_in_empty = pending == needed && used <= self.empty_size;
-			if used + pending <= self.capacity || alone_in_empty {
+			if used + pending <= self.capacity {
 				break;
 			}
 			self.pending_bytes.fetch_sub(needed, Ordering::AcqRel);
-			if used + needed > self.capacity && used > self.empty_size {
-				// Does not fit next to what is already here.
+			if used + needed > self.capacity {
+				// Does not fit next to what is already here (or, if nothing is
+				// here, into a memtable at all).
 				return Err(crate::Error::ArenaFull);
 			}
-			// It fits, but only once the adders currently at work (whose upper
-			// bounds are counted in `pending`) are done: let them finish.
+			// It fits, but only once the adders currently at work (whose needs
+			// are counted in `pending`) are done: let them finish.
 			std::thread::yield_now();
 		}
 
-		let result = self.apply_batch_to_memtable(batch);
+		let result = self.apply_batch_to_memtable(batch, &heights);
 		self.pending_bytes.fetch_sub(needed, Ordering::AcqRel);
 		let highest_seq_num = result?;
 		self.update_latest_sequence_number(highest_seq_num);
@@ -229,13 +252,13 @@ impl MemTable {
 
 	/// Applies the batch of operations to the in-memory table (memtable).
 	/// Returns (total_record_size, highest_seq_num_used).
-	fn apply_batch_to_memtable(&self, batch: &Batch) -> Result<u64> {
+	fn apply_batch_to_memtable(&self, batch: &Batch, heights: &[u32]) -> Result<u64> {
 		// Pre-allocate empty value Bytes for delete operations to avoid repeated
 		// allocations
 		let empty_val = Value::new();
 
 		// Process entries with pre-encoded ValueLocations
-		for (_i, entry, current_seq_num, timestamp) in batch.entries_with_seq_nums()? {
+		for (i, entry, current_seq_num, timestamp) in batch.entries_with_seq_nums()? {
 			let ikey = InternalKey::new(entry.key.clone(), current_seq_num, entry.kind, timestamp);
 
 			// Use the value directly (cheap Bytes clone), or reuse empty value for deletes
@@ -246,7 +269,7 @@ impl MemTable {
 				empty_val.clone()
 			};
 
-			self.insert_into_memtable(&ikey, &val)?;
+			self.insert_into_memtable(&ikey, &val, heights[i])?;
 		}
 
 		// Get the highest sequence number used from the batch
@@ -257,10 +280,10 @@ impl MemTable {
 
 	/// Inserts a key-value pair into the memtable.
 	/// Returns Err(ArenaFull) if there's not enough space.
-	fn insert_into_memtable(&self, key: &InternalKey, value: &Value) -> Result<()> {
+	fn insert_into_memtable(&self, key: &InternalKey, value: &Value, height: u32) -> Result<()> {
 		let trailer = (key.seq_num() << 8) | (key.kind() as u64);
 
-		match self.skiplist.add(&key.user_key, trailer, key.timestamp, value) {
+		match self.skiplist.add_with_height(&key.user_key, trailer, key.timestamp, value, height) {
 			Ok(()) => Ok(()),
 			Err(SkiplistError::RecordExists) => Ok(()), // Duplicate is not an error in memtable
 			Err(SkiplistError::ArenaFull) => Err(crate::Error::ArenaFull),
